@@ -205,19 +205,70 @@ def cross_case(MG, MS, R, s, f, lam, which, d0, delta, sigma, offset):
     return gs, ge, A
 
 
-def gen_cross(rng, tier):
-    for _ in range(100):
+def doubling_binary_search(lin, feasible):
+    """generic model of 'double the upper bound until feasible, then bisect (lower, upper]' started at the end `lin` of an
+    exhaustive range; returns the duration it would report for the feasibility predicate"""
+    hi = lin
+    for _ in range(20):
+        hi *= 2
+        if feasible(hi):
+            break
+    lo = hi // 2
+    while lo != hi - 1:
+        t = (hi + lo) // 2
+        if feasible(t):
+            hi = t
+        else:
+            lo = t
+    return hi
+
+
+def fooled_optima(lin, top):
+    """even optimum durations d0 in (lin, top] for which a doubling + bisection search is fooled when the feasible set is
+    {d >= d0} minus the single gap d0 + 1 (the odd/even alternation right above the optimum)"""
+    out = []
+    for d0 in range(lin + 1, top + 1):
+        if d0 % 2 == 0 and doubling_binary_search(lin, lambda d: d >= d0 and d != d0 + 1) != d0:
+            out.append(d0)
+    return out
+
+
+def gen_cross(rng, tier, force_mode=None):
+    for _ in range(400):
         MG, MS, R = make_system(rng)
         mg, ms = Fr(99, 100) * MG, Fr(99, 100) * MS
+        if float(mg / (ms * R)) > 9 and rng.random() < 0.75:
+            continue        # the gaps between feasible durations are widest when the ramp-to-limit time is a few rasters
         s = rng.choice([-1, 1])
         f = rng.choice([0.99, rng.uniform(0.3, 0.99), rng.uniform(0.8, 0.99)])
         lam = rng.choice([1.0, 1.0, 1.0, rng.uniform(0.4, 1.0), rng.uniform(0.9, 1.0)])
         lin = max(2, math.ceil(f * float(mg) / float(ms * R)))
         if lin > 40:
             continue
-        d0 = rng.randint(lin + 1, 5 * lin + 4)
-        gs, ge, A = cross_case(MG, MS, R, s, f, lam, rng.randint(0, 1), d0, rng.choice([0, 0, 0, 1, -1]),
-                               rng.choice([0.9, 0.97, 0.99, 0.995, 0.999, 0.9999]),
+        mode = force_mode or rng.choice(['any', 'near', 'probe', 'probe'])
+        if mode == 'any':
+            d0 = rng.randint(lin + 1, 5 * lin + 4)
+        elif mode == 'near':
+            d0 = rng.randint(lin + 1, 3 * lin + 1)
+        else:
+            # an optimum right below a gap that lies on the path of a doubling + bisection search
+            cand = fooled_optima(lin, 4 * lin + 2)
+            if not cand:
+                continue
+            d0 = rng.choice(cand)
+            lam = 1.0
+            if f < 0.75:
+                f = rng.uniform(0.75, 0.99)
+                lin2 = max(2, math.ceil(f * float(mg) / float(ms * R)))
+                if lin2 != lin:
+                    continue
+        # slope so close to the limit that one more raster step (larger excursion needed, same split) is infeasible
+        sigma = rng.choice([0.97, 0.99, 1 - 0.5 / (d0 + 1), 1 - 0.2 / (d0 + 1), 1 - 0.05 / (d0 + 1), 1 - 0.01 / (d0 + 1)])
+        if mode == 'probe':
+            sigma = rng.choice([1 - 0.2 / (d0 + 1), 1 - 0.05 / (d0 + 1), 1 - 0.01 / (d0 + 1)])
+        gs, ge, A = cross_case(MG, MS, R, s, f, lam, rng.randint(0, 1), d0,
+                               0 if mode == 'probe' else rng.choice([0, 0, 0, 1, -1]), sigma,
+                               rng.choice([0, 0, 1e-6, -1e-6]) if mode == 'probe' else
                                rng.choice([0, 0, 1e-6, -1e-6, -1e-4, 1e-4, -1e-3, -1e-2]))
         if not ceil_args_safe(MG, MS, R, gs, ge):
             continue
@@ -244,6 +295,65 @@ def scan_cross(rng, n_systems):
                         if ceil_args_safe(MG, MS, R, gs, ge):
                             out.append(_finish_case('scan-cross', 'equal', MG, MS, R, gs, ge, A))
     return out
+
+
+def two_ramp_feasible_table(mg, ms, R, gs, ge, A, dmax):
+    """binary64 predictor used ONLY to steer the generator (never to judge): table t[d] = 'there is a split ru + rd = d
+    whose corner amplitude solves the area equation within the 99% limits', d = 0 .. dmax"""
+    import numpy as np
+    d = np.arange(dmax + 1, dtype=float)[:, None]
+    ru = np.arange(dmax + 1, dtype=float)[None, :]
+    rd = d - ru
+    with np.errstate(divide='ignore', invalid='ignore'):
+        ga = (2 * A / R - ru * gs - rd * ge) / d
+        ok = (ru >= 1) & (rd >= 1) & (np.abs(ga) <= mg) & (np.abs(ga - gs) <= ms * R * ru) & (np.abs(ga - ge) <= ms * R * rd)
+    return ok.any(axis=1)
+
+
+def gen_fooled(rng, tier):
+    """directed search for inputs on which 'exhaustive search up to the ramp-to-zero duration, then doubling + bisection'
+    over the two-ramp feasibility predicate does NOT land on the least feasible duration: dead spaces above the linear
+    range (end points near the limit, small/medium areas that fall between the ranges reachable by short durations)"""
+    for _ in range(60):
+        MG, MS, R = make_system(rng)
+        mg, ms = Fr(99, 100) * MG, Fr(99, 100) * MS
+        if float(mg / (ms * R)) > 12 and rng.random() < 0.8:
+            continue
+        s = rng.choice([-1, 1])
+        f = rng.choice([0.99, rng.uniform(0.5, 0.99), rng.uniform(0.85, 0.99)])
+        gs = Fr(round(s * f * float(mg)))
+        rel = rng.choice(['equal', 'equal', 'same-sign', 'free'])
+        if rel == 'equal':
+            ge = gs
+        elif rel == 'same-sign':
+            ge = Fr(round(float(gs) * rng.uniform(0.4, 1.0)))
+            if rng.random() < 0.5:
+                gs, ge = ge, gs
+        else:
+            ge = Fr(round(rng.uniform(-1, 1) * float(mg)))
+        if not ceil_args_safe(MG, MS, R, gs, ge):
+            continue
+        fmg, fms, fR, fgs, fge = float(mg), float(ms), float(R), float(gs), float(ge)
+        lin = max(2, math.ceil(max(abs(fgs), abs(fge)) / (fms * fR)), math.ceil(abs(fgs - fge) / (fms * fR)))
+        mn = max(2, math.ceil(abs(fgs - fge) / (fms * fR)))
+        scale = max(abs(fgs), abs(fge)) * lin * fR
+        found = None
+        dmax = 8 * lin + 4
+        for _a in range(40):
+            A = rng.uniform(-2.5, 2.5) * scale
+            if two_ramp_feasible_table(fmg, fms, fR, fgs, fge, A, lin)[mn:].any():
+                continue                      # already solved inside the exhaustive range
+            tab = two_ramp_feasible_table(fmg, fms, fR, fgs, fge, A, dmax)
+            dmin = next((d for d in range(mn, 8 * lin + 4) if tab[d]), None)
+            if dmin is None or dmin <= lin:
+                continue
+            if doubling_binary_search(lin, lambda d: d <= dmax and bool(tab[d]) or d > dmax) != dmin:
+                found = A
+                break
+        if found is None:
+            continue
+        return _finish_case('fooled', rel, MG, MS, R, gs, ge, Fr(found))
+    return gen_cross(rng, tier)
 
 
 def gen_onestep(rng, tier):
@@ -675,7 +785,7 @@ def process(ctx, c, rng, n_find):
     mres = parse_run(ctx.model([model_run_line(c)])[0])
     same = compare_run(ctx, c, res, mres, ok, D)
     if mres.get('cls') == 'OK' and mres['D'] > mres['lin_max'] and \
-            (ctx.tier == 'thorough' or c['kind'] in ('cross', 'scan-cross', 'corpus', 'shape', 'onestep')):
+            (ctx.tier == 'thorough' or c['kind'] in ('cross', 'scan-cross', 'fooled', 'corpus', 'shape', 'onestep')):
         # evidence that the generator reaches dead spaces ABOVE the linear range: the search without the rescan
         # (model function eta_old = the source before repair 7df2246) would have returned a longer gradient
         old = parse_run(ctx.model(['eta.old %s %d %d' % (args_tok(c), FUEL_D, FUEL_B)])[0])
@@ -704,12 +814,14 @@ def run(ctx):
     xrng = ctx.rng('cross')
     orng = ctx.rng('onestep')
     n_cases = {'quick': 200, 'thorough': 7000}[ctx.tier]
-    n_cross = {'quick': 50, 'thorough': 2500}[ctx.tier]
+    n_cross = {'quick': 30, 'thorough': 1500}[ctx.tier]
     n_one = {'quick': 20, 'thorough': 800}[ctx.tier]
     n_bound = {'quick': 15, 'thorough': 500}[ctx.tier]
     gen = [gen_case(rng, ctx.tier) for _ in range(n_cases)]
     gen += [gen_cross(xrng, ctx.tier) for _ in range(n_cross)]
     gen += [gen_onestep(orng, ctx.tier) for _ in range(n_one)]
+    zrng = ctx.rng('fooled')
+    gen += [gen_fooled(zrng, ctx.tier) for _ in range({'quick': 20, 'thorough': 1500}[ctx.tier])]
     gen += [gen_case(brng, ctx.tier, boundary=True) for _ in range(n_bound)]
     if ctx.tier == 'thorough':
         gen += scan_cross(ctx.rng('scan'), 4)
